@@ -152,9 +152,9 @@ class StateUpdater:
                     remote_value.device_name,
                     remote_value.feature_name,
                 )
-                # shield from cancellation so update_received() don't cancel the
-                # ValueReader leaving the telegram_received_cb until next telegram
-                await asyncio.shield(remote_value.read_state(wait_for_result=True))
+                # cancelled together with its tracker - the ValueReader removes its
+                # telegram_received_cb when it is cancelled
+                await remote_value.read_state(wait_for_result=True)
 
         tracker_options = self.parse_tracker_options(tracker_options, str(remote_value))
         tracker = _StateTracker(
